@@ -168,4 +168,22 @@ def Sys.step (s : Sys) (op : Op) : Except String (Sys × Res) :=
         | .ok tcb => .ok (s.setSide x { sd with tcb := some tcb }, .ok)
       | _ => .ok (s, .ok)
 
+/-- run a list of ops from `s`; the results of all ops, or the first panic -/
+def Sys.run (s : Sys) : List Op → Except String (Sys × List Res)
+  | [] => .ok (s, [])
+  | op :: ops =>
+    match s.step op with
+    | .error e => .error e
+    | .ok (s, r) =>
+      match s.run ops with
+      | .error e => .error e
+      | .ok (s, rs) => .ok (s, r :: rs)
+
+/-- a forged segment addressed to side `x` (source port = the peer's port), as `inject` builds it -/
+def forge (x : SideId) (ctl seq ack wnd : Nat) (text : List UInt8) : Segment :=
+  { hdr := { srcPort := x.peer.port, dstPort := x.port, seq := BitVec.ofNat 32 seq,
+             ack := BitVec.ofNat 32 ack, dataOffset := 5, ctl := Ctl.ofNat ctl,
+             wnd := BitVec.ofNat 16 wnd, urg := 0, checksum := 0 },
+    text := text }
+
 end Elvis.Tcp
